@@ -231,6 +231,7 @@ func (s *Sim) handleDelivery(m *txMeta, p *Pkt, mo *MsgObs, sh *shadowResult) bo
 	}
 	ack := decodeAck(hexOf(was[0], "packet_ack"))
 	p.State, p.Ack = PktReceived, ack.Bytes
+	s.AckLog = append(s.AckLog, fmt.Sprintf("h=%d packet op=%d ack=%s", s.N.Height, p.Origin, ack.Bytes))
 	in := s.classify(p)
 	cls := "non-ics20"
 	if in.ICS {
@@ -1099,6 +1100,22 @@ func (s *Sim) resyncFromExport(pause []string) {
 
 // endOfRun: whole-history checks.
 func (s *Sim) endOfRun() {
+	ar := NewRng(uint64(s.N.Height)*7919 + uint64(len(s.Packets)))
+	if hasAudit(s.Prof, "queries") {
+		s.auditQueries(ar)
+	}
+	if hasAudit(s.Prof, "pausequeries") {
+		s.auditPauseQueries(ar)
+	}
+	if hasAudit(s.Prof, "genesis") {
+		s.auditGenesis(ar, true)
+	}
+	if hasAudit(s.Prof, "impostor") {
+		s.auditImpostor(ar)
+	}
+	if hasAudit(s.Prof, "ids") {
+		s.auditIDs(ar)
+	}
 	// exactly one outgoing bridge message per successful CCTP/Hyperlane packet
 	for _, p := range s.sortedPackets() {
 		in := s.classify(p)
